@@ -165,6 +165,7 @@ func (m *monitor) one(stream string, idx int, src string, mode int) {
 		return
 	}
 	m.ev("parse.tree")
+	m.ev("parse.tree.by-stream:" + strings.TrimRight(strings.SplitN(stream, "-", 2)[0], "0123456789"))
 	m.walk(tree, stream, idx, src, mode, extra)
 }
 
@@ -218,7 +219,7 @@ func (m *monitor) walk(tree *parser.ASTNode, stream string, idx int, src string,
 	}
 	b := 80
 	tr := sexpr(tree, &b)
-	if idx%997 == 3 {
+	if idx%997 == 3 && mode == 0 {
 		m.c.Sample(stream+"-tree", map[string]interface{}{"input": trunc(src, 300), "tree": tr})
 	}
 	structural := len(w.probs) > 0
